@@ -571,6 +571,9 @@ def mk_pow_real(I, a, n):
     return mk(r if n >= 0 else 1 / r, 'real')
 
 
+SQRTF = z3.Function('sqrtf', z3.RealSort(), z3.RealSort())
+
+
 def sqrt_(I, a):
     """real square root: fresh s >= 0 with s*s == a (requires a >= 0: side obligation otherwise nan)"""
     if not isinstance(a, Sym):
@@ -580,7 +583,7 @@ def sqrt_(I, a):
     key = ('sqrt', a.e.get_id())
     c = I.ctx.trig_cache.get(key)
     if c is None:
-        s = I.ctx.fresh('sqrt', 'real')
+        s = Sym(SQRTF(zreal(a)), 'real')
         I.ctx.fact(z3.Implies(zreal(a) >= 0, z3.And(s.e >= 0, s.e * s.e == zreal(a))))
         I.ctx.trig_cache[key] = (s, a)
         c = (s, a)
